@@ -32,3 +32,14 @@ add("C05", "model_checking",
     "All tridiagonal matrices over 5 letters for n<=3 (n=4 over 4/5 letters, n=5 over 3 letters; deeper in thorough), Toeplitz families n=6..12 with the pivot of each step forced to zero: convert/transpose/index/det/product must equal the dense twin and solve must return the exact solution iff exact Thomas elimination meets no zero pivot, else panic with the zero-pivot message. BFS over index writes, transposes, arithmetic and resizes for orders 1..3.",
     "Trusted: dense reference and an independent exact Thomas recurrence that decides which outcome is required. f64 stability only checked on strictly diagonally dominant families.",
     "DESIGN.md section 6 C05")
+
+add("C06", "model_checking",
+    "explicit-state BFS over insert/overwrite/scale/transpose histories of the real Sparse<Rat> (state = public CSC arrays) + exhaustive pattern x triplet-order enumeration against a BTreeMap",
+    "Every sparsity pattern of every shape with r*c<=12 (quick) / r,c<=4 (thorough), built in every permutation of its triplet list (nnz<=5) or 8 fixed orders and through from_vecs, plus structured families up to 8x8: get for every (i,j), to_triplets, to_dense, col_index and the compressed-column invariants are compared with a map model. BFS explores every history up to depth 5 (quick) / 7 (thorough) from three empty shapes, deduplicating on the full public state, cross-checked against stateright's BFS.",
+    "Trusted: BTreeMap reference. Duplicate triplets are outside the claim.",
+    "DESIGN.md section 6 C06")
+add("C07", "model_checking",
+    "exhaustive pattern enumeration with every unit vector + explicit-state BFS over construction histories, dense product over exact rationals as oracle",
+    "Every sparsity pattern for shapes with r*c<=12 (quick) / <=20 (thorough) in two triplet orders and pattern families up to 10x10: multiply, transpose_multiply, transpose().multiply, the adjoint identity and scale against the dense definition for every unit vector and four generic vectors, exactly; the same oracles in every state of the insert/scale/transpose BFS (storage orders from_triplets alone never produces).",
+    "Trusted: dense reference product over checked i128 rationals.",
+    "DESIGN.md section 6 C07")
